@@ -60,7 +60,7 @@ COMPONENTS = {
 }
 PROBES = {"unsafe_entry_present": 1, "symlink_then_dir": 1,
           "checkout_refused": 1, "interrupted_checkout": 1,
-          "symlink_materialised": 1}
+          "symlink_materialised": 1, "copy_patch_applied": 1}
 MIN_BUDGET = 200
 
 DEPTH = ["l1", "l2", "l3", "l4", "l5"]
@@ -222,6 +222,7 @@ def gen_plan(seed, tier):
                                "reset_hard", "update_working_tree",
                                "reset_mixed_hard", "stash_pop", "apply_patch",
                                "am", "switch", "restore", "build_index",
+                               "apply_copy",
                                "reset_index", "reset_mixed_hard_prev",
                                "reset_mixed_hard_prev", "checkout_paths"]))
     if rng.random() < 0.15:
@@ -633,6 +634,39 @@ def run_plan(plan):
                                 porcelain.apply_patch(
                                     r, patch_file=io.BytesIO(make_patch(
                                         plan["trees"][i], ctx)))
+                            elif op == "apply_copy":
+                                # hunk-less copy / rename patches: the
+                                # source is an ordinary file, every path of
+                                # the tree (whatever is there now) a target
+                                srcn = b"cpsrc%d" % i
+                                porcelain.apply_patch(
+                                    r, patch_file=io.BytesIO(
+                                        b"diff --git a/" + srcn + b" b/" +
+                                        srcn + b"\nnew file mode 100755\n"
+                                        b"--- /dev/null\n+++ b/" + srcn +
+                                        b"\n@@ -0,0 +1 @@\n+PAYLOAD-0-" +
+                                        ctx["marker"] + b"\n"))
+                                paths = [pth for pth, _k, _e in
+                                         flat_entries(plan["trees"][i])]
+                                for j, pth in enumerate(paths):
+                                    verb = b"rename" if j == len(paths) - 1 \
+                                        else b"copy"
+                                    pt = (b"diff --git " +
+                                          quote_path(b"a/" + srcn) + b" " +
+                                          quote_path(b"b/" + pth) +
+                                          b"\nsimilarity index 100%\n" +
+                                          verb + b" from " +
+                                          quote_path(srcn) + b"\n" +
+                                          verb + b" to " + quote_path(pth) +
+                                          b"\n")
+                                    try:
+                                        porcelain.apply_patch(
+                                            r, patch_file=io.BytesIO(pt))
+                                        stats["probe:copy_patch_applied"] = 1
+                                    except Exception as e:  # noqa: BLE001
+                                        if is_injected(e):
+                                            raise
+                                        stats["probe:checkout_refused"] = 1
                             elif op == "am":
                                 porcelain.am(
                                     r, patches=io.BytesIO(make_mbox(make_patch(
